@@ -30,7 +30,7 @@ RULE = ("2 of 3 runs: 1-12 ACN-Data documents (instants incl. DST transitions, s
         "period, #docs, capped?)")
 PROBES = ["acndata_path", "stochastic_path", "stay_crosses_dst", "max_len_capped", "force_feasible_capped", "fit_used",
           "fit_closed_form_branch", "fit_search_branch", "naive_start", "host_tz_non_utc", "fit_infeasible_inconclusive",
-          "departure_eq_arrival", "request_below_half_deliverable", "lenient_server_out_of_window_docs", "arrival_before_start"]
+          "departure_eq_arrival", "request_below_half_deliverable", "lenient_server_out_of_window_docs", "arrival_before_start", "integer_typed_sample_matrix"]
 FAULT_DIMENSION = "host time zone changes (S6); server paging as in C20; lenient server returning documents outside the requested window"
 REAL_VS_STUB = ("real: acndata_events.get_evs/_convert_to_ev, DataClient, acndata.utils, StochasticEvents.generate_events/"
                 "_convert_ev_matrix, batt_cap_fn, EV, Battery, Linear2StageBattery; stub: requests -> fake server; "
@@ -69,6 +69,13 @@ def gen(rs, tier):
                     stay_p = int((a + d) * pph) - int(a * pph)
                     e = max(0.5, min(0.8 * max_power * stay_p * period / 60.0, 55.0) * 0.5)
             rows.append([a, d, max(0.5, e)])
+        if not fit and r.random() < 0.25:
+            # a sampler that returns an integer-typed matrix (whole hours, whole kWh): caps and conversions must not be
+            # truncated back into that dtype
+            rows = [[int(a) % 24, max(1, int(round(d))), max(1, int(round(e)))] for a, d, e in rows]
+            common["int_matrix"] = True
+            if common["max_len"] is not None and r.random() < 0.5:
+                common["max_len"] = r.choice([1.5, 2.5, 3.5, 7.25])
         common.update(path="stochastic", days=[len(rows)], rows=rows)
         if fit:
             common["max_len"] = None
@@ -251,10 +258,14 @@ def check(sc):
                             break
             else:
                 out.probe("stochastic_path")
+                if sc.get("int_matrix"):
+                    out.probe("integer_typed_sample_matrix")
                 from acnportal.acnsim.events import stochastic_events as se
 
                 class Seeded(se.StochasticEvents):
                     def sample(self_, n):
+                        if sc.get("int_matrix"):
+                            return np.array(sc["rows"][:n], dtype=np.int64)
                         return np.array(sc["rows"][:n], dtype=float)
                 gen_ = Seeded()
                 try:
